@@ -267,7 +267,55 @@ func addExtra(rec *sb.Rec, k string, n int) {
 
 func c16GenProgram(rt *rapid.T, i int, exclude map[string]bool) c16Prog {
 	name := fmt.Sprintf("p%04d", i)
-	switch rapid.IntRange(0, 5).Draw(rt, "pkind") {
+	switch rapid.IntRange(0, 7).Draw(rt, "pkind") {
+	case 6:
+		// several namespace sections in one file: same short function names in each, unqualified calls
+		// (some to functions declared later in the same section), fully qualified calls across sections
+		ns := rapid.IntRange(2, 3).Draw(rt, "nns")
+		var sb strings.Builder
+		sb.WriteString("<?php\n")
+		fnames := []string{"label", "wrap", "pick"}
+		for k := 0; k < ns; k++ {
+			fmt.Fprintf(&sb, "namespace %s\\N%d;\n", name, k)
+			order := rapid.Permutation([]int{0, 1, 2}).Draw(rt, "forder")
+			for _, fi := range order {
+				switch fi {
+				case 0:
+					fmt.Fprintf(&sb, "function label($n) { return 'L%d:' . $n; }\n", k)
+				case 1:
+					fmt.Fprintf(&sb, "function wrap($n) { return 'W%d(' . label($n) . ')'; }\n", k)
+				default:
+					fmt.Fprintf(&sb, "function pick($n) { return wrap($n + %d) . '/' . label($n); }\n", k)
+				}
+			}
+			for c := rapid.IntRange(1, 3).Draw(rt, "ncalls"); c > 0; c-- {
+				fn := rapid.SampledFrom(fnames).Draw(rt, "fn")
+				if rapid.Bool().Draw(rt, "qualified") {
+					fmt.Fprintf(&sb, "echo \\%s\\N%d\\%s(%d), \"\\n\";\n", name, rapid.IntRange(0, k).Draw(rt, "tns"), fn, c)
+				} else {
+					fmt.Fprintf(&sb, "echo %s(%d), \"\\n\";\n", fn, c)
+				}
+			}
+		}
+		return c16Prog{Name: name, Src: sb.String(), Kind: "multi-namespace"}
+	case 7:
+		// user-defined attribute classes whose constructors are observable; compile may refuse them,
+		// but must not silently drop them
+		var sb strings.Builder
+		fmt.Fprintf(&sb, "<?php\nnamespace %s;\nclass Mark {\n    public function __construct(public string $tag = \"none\") { echo \"mark:\", $tag, \"\\n\"; }\n}\n", name)
+		onClass, onMethod := rapid.Bool().Draw(rt, "oncls"), rapid.Bool().Draw(rt, "onmeth")
+		if !onClass && !onMethod {
+			onClass = true
+		}
+		if onClass {
+			fmt.Fprintf(&sb, "#[Mark(\"c%d\")]\n", rapid.IntRange(0, 9).Draw(rt, "ctag"))
+		}
+		sb.WriteString("class Svc {\n")
+		if onMethod {
+			fmt.Fprintf(&sb, "    #[Mark(\"m%d\")]\n", rapid.IntRange(0, 9).Draw(rt, "mtag"))
+		}
+		sb.WriteString("    public function total($xs) { $s = 0; foreach ($xs as $x) { $s += $x; } return $s; }\n}\n$svc = new Svc();\necho \"total=\", $svc->total([1, 2, 3]), \"\\n\";\n")
+		return c16Prog{Name: name, Src: sb.String(), Kind: "attribute"}
 	case 0, 1:
 		cfg := pgen.DefaultCfg()
 		cfg.MaxStmts = 10
@@ -334,7 +382,7 @@ func TestC16(t *testing.T) {
 	cfg := sb.LoadConfig("C16")
 	rec := sb.NewRec(cfg)
 	defer rec.Flush()
-	rec.R.Rule = "batches of generated programs (control flow, exceptions in a namespace, expressions, class programs, class hierarchies with dispatch) plus the statically deterministic corpus files; every program is translated by its own `origami compile` invocation, the batch is built once into one binary, and each program is run compiled and interpreted: stdout, exit status and the location-free diagnostic must be equal. Non-trivial = the interpreted run prints something and the generated Go source uses at least one node constructor (special handler / fast-path node); distinct by program text."
+	rec.R.Rule = "batches of generated programs (control flow, exceptions in a namespace, expressions, class programs, class hierarchies with dispatch, files with several namespace sections, user-defined attributes) plus the statically deterministic corpus files; every program is translated by its own `origami compile` invocation, the batch is built once into one binary, and each program is run compiled and interpreted: stdout, exit status and the location-free diagnostic must be equal. Non-trivial = the interpreted run prints something and the generated Go source uses at least one node constructor (special handler / fast-path node); distinct by program text."
 	dl := time.Now().Add(budget(cfg, 200, 1800))
 	root, _ := os.MkdirTemp("", "c16-")
 	defer os.RemoveAll(root)
